@@ -2,7 +2,9 @@
 (* Bounded exhaustive configuration of EventStore: at most MaxAppends items. *)
 (* `res` is output-only, so it is hidden from the fingerprint with a VIEW.   *)
 EXTENDS EventStore
-CONSTANTS MaxAppends
+CONSTANTS MaxAppends,
+          CoverIdxN  \* the iterator objects of the iterator cover graph are obtained with the indexes -1 .. CoverIdxN-2
+CoverIdx == -1 .. (CoverIdxN - 2)
 Bound == cnt <= MaxAppends
 \* cover configuration: three of the four streams, to keep the dumped graph small
 CoverBound == cnt <= MaxAppends /\ <<"s2", "t2">> \notin open
@@ -12,9 +14,35 @@ CoverNext ==
   \/ \E s \in Sessions, t \in Streams, sz \in Sizes : AppendSz(s, t, sz)
   \/ \E m \in Limits : SetMax(m)
   \/ \E s \in Sessions : Closed(s)
+  \/ IterStep
 CoverSpec == Init /\ [][CoverNext]_svars
-MCView == <<open, first, data, nBytes, maxBytes, appended, lastSz, cnt, panicked>>
+MCView == <<open, first, data, nBytes, maxBytes, appended, lastSz, cnt, panicked, its>>
+\* iterator cover configuration (small graph): one stream per session; the iterator objects are over s1/t1
+\* (sessions are treated alike by the code), obtained only when the caller holds none and dropped when done
+GetNew(k, s, t, i) == its[k].st = "free" /\ Get(k, s, t, i)
+IterCoverNext ==
+  \/ \E s \in Sessions, t \in Streams : Open(s, t)
+  \/ \E s \in Sessions, t \in Streams, sz \in Sizes : AppendSz(s, t, sz)
+  \/ \E m \in Limits : SetMax(m)
+  \/ \E s \in Sessions : Closed(s)
+  \/ \E k \in Iters, i \in CoverIdx : GetNew(k, "s1", "t1", i)
+  \/ \E k \in Iters : Begin(k) \/ IterNext(k) \/ Stop(k) \/ Drop(k)
+IterCoverSpec == Init /\ [][IterCoverNext]_svars
+\* the ghosts of the iterator objects do not distinguish nodes of the cover graph
+IterCoverView == <<open, first, data, nBytes, maxBytes, appended, lastSz, cnt, panicked,
+                   [k \in Iters |-> [its[k] EXCEPT !.stale = FALSE, !.want = <<>>]]>>
 \* reachability witnesses (must be VIOLATED, otherwise the model is vacuous)
 NeverPurged == \A p \in Pairs : first[p] = 0
 NeverOverMax == nBytes <= maxBytes
+\* iterator witnesses: a ranging goes on although (a) the item it hands out next has been evicted, (b) its
+\* session has been closed, (c) its stream has been created again and written; an iterator obtained before
+\* its session was closed is about to be ranged (d) with the session gone, (e) with the stream created again
+\* and written
+InStream(x, q) == \E j \in DOMAIN q : q[j] = x
+NeverLiveEvicted == \A k \in Iters : (its[k].st = "live" /\ its[k].pos < Len(its[k].snap)) =>
+                        ~(InStream(its[k].snap[its[k].pos + 1], appended[its[k].p]) /\ ~InStream(its[k].snap[its[k].pos + 1], data[its[k].p]))
+NeverLiveClosed == \A k \in Iters : (its[k].st = "live" /\ its[k].pos < Len(its[k].snap)) => its[k].p \in open
+NeverLiveReborn == \A k \in Iters : (its[k].st = "live" /\ its[k].pos < Len(its[k].snap)) => ~(its[k].stale /\ data[its[k].p] # <<>>)
+NeverHeldClosed == \A k \in Iters : its[k].st = "held" => ~(its[k].stale /\ its[k].p \notin open)
+NeverHeldReborn == \A k \in Iters : its[k].st = "held" => ~(its[k].stale /\ data[its[k].p] # <<>>)
 =============================================================================
